@@ -67,22 +67,40 @@ Theorem C17_identity_as_received : forall caps ident i,
 Proof. exact probe_info_spec. Qed.
 Print Assumptions C17_identity_as_received.
 
-(* an address at which a device is registered, all devices registered there being Up, is never
-   dialled — for every set of registered devices, every host behaviour, every distribution of
-   addresses over workers, every timer setting *)
-Theorem C17_registered_up_skipped : forall tm dl devs hosts work a,
-  (exists d, In d devs /\ d_addr d = Some a) ->
-  (forall d, In d devs -> d_addr d = Some a -> d_state d = Up) ->
-  ~ In a (run_probed tm dl (make_device_map devs) hosts work).
+(* an address = (host, scan port). If some device is registered at exactly that address and every
+   device registered at exactly that address is Up, the host is never dialled — for EVERY list of
+   registered devices (any number of devices per host on any ports, in any order, duplicates,
+   devices without tcp information), every host behaviour, every distribution of addresses over
+   workers, every timer setting *)
+Theorem C17_registered_up_skipped : forall tm dl devs port hosts work a,
+  (exists d, In d devs /\ d_addr d = Some (a, port)) ->
+  (forall d, In d devs -> d_addr d = Some (a, port) -> d_state d = Up) ->
+  ~ In a (run_probed tm dl (make_device_map devs) port hosts work).
 Proof. exact registered_up_skipped. Qed.
 Print Assumptions C17_registered_up_skipped.
+
+(* the port is part of the key: whether (host, scan port) is skipped depends only on the devices
+   registered at exactly (host, scan port), in their list order — devices on other ports of the
+   same host, wherever they stand in the list, change nothing *)
+Theorem C17_other_ports_irrelevant : forall devs port a,
+  skip (make_device_map devs) port a =
+  skip (make_device_map (filter (fun d => match d_addr d with
+                                          | Some k => key_eqb k (a, port) | None => false end) devs)) port a.
+Proof. exact other_ports_irrelevant. Qed.
+Print Assumptions C17_other_ports_irrelevant.
+
+(* an address at which nothing is registered is not skipped *)
+Theorem C17_unregistered_not_skipped : forall devs port a,
+  (forall d, In d devs -> d_addr d <> Some (a, port)) -> skip (make_device_map devs) port a = false.
+Proof. exact skip_unregistered. Qed.
+Print Assumptions C17_unregistered_not_skipped.
 
 (* whatever is reported comes from an address that was handed to a worker, was not skipped, and
    whose host answered the whole exchange including an Identification; the reported record is
    exactly the one built from what that host sent *)
-Theorem C17_only_identified_reported : forall tm dl m hosts work a i,
-  In (a, i) (run_reported tm dl m hosts work) ->
-  In a (concat work) /\ skip m a = false /\
+Theorem C17_only_identified_reported : forall tm dl m port hosts work a i,
+  In (a, i) (run_reported tm dl m port hosts work) ->
+  In a (concat work) /\ skip m port a = false /\
   exists c t rid,
     (hosts a = Answer c (Some (t, rid)) \/ hosts a = AnswerNoClose c (Some (t, rid))) /\
     probe_info c (Some (t, rid)) = Some i.
@@ -96,16 +114,16 @@ Print Assumptions C17_only_identified_reported.
    connection has a read deadline. Then a run that starts at 0 with context deadline dl ends by
    dl + (dial + max(send_timeout, read_deadline)). Not covered: time spent by the SDK calls of the
    result collector, scheduling. *)
-Theorem C17_run_time_bounded_partial : forall tm r dl m hosts work,
+Theorem C17_run_time_bounded_partial : forall tm r dl m port hosts work,
   read_deadline tm = Some r ->
-  exists t, run_time tm dl m hosts work = Some t /\ t <= dl + allowance tm.
+  exists t, run_time tm dl m port hosts work = Some t /\ t <= dl + allowance tm.
 Proof. exact run_time_bounded. Qed.
 Print Assumptions C17_run_time_bounded_partial.
 
 (* the same for any per-probe bound A, whatever the timers are *)
-Theorem C17_run_time_bounded_by_probe_bound_partial : forall tm dl m hosts work A,
+Theorem C17_run_time_bounded_by_probe_bound_partial : forall tm dl m port hosts work A,
   (forall b, exists d, probe_time tm b = Some d /\ d <= A) ->
-  exists t, run_time tm dl m hosts work = Some t /\ t <= dl + A.
+  exists t, run_time tm dl m port hosts work = Some t /\ t <= dl + A.
 Proof. exact run_time_bounded_gen. Qed.
 Print Assumptions C17_run_time_bounded_by_probe_bound_partial.
 
@@ -114,7 +132,7 @@ Print Assumptions C17_run_time_bounded_by_probe_bound_partial.
    closing — makes the run never return, whatever the probe timeout t, sendTimeout s and the
    run's deadline dl > 0 are. Replayed on the Go code by checks/c17.py (probe/run scenarios). *)
 Theorem C17_run_time_refuted : forall t s dl, 0 < dl ->
-  exists m hosts work, run_time (go_timers t s) dl m hosts work = None.
+  exists m port hosts work, run_time (go_timers t s) dl m port hosts work = None.
 Proof. exact run_time_refuted. Qed.
 Print Assumptions C17_run_time_refuted.
 
@@ -128,12 +146,16 @@ Proof. vm_compute. reflexivity. Qed.
 Example C17_example_short_mac : device_name 25882 2001008 0 [0xAB; 0x0C] = str "xSpan-ab0c".
 Proof. vm_compute. reflexivity. Qed.
 Example C17_example_run :
-  let devs := [mk_device (str "SpeedwayR-19-FE-16") (Some 2) Up; mk_device (str "old") (Some 3) Down] in
+  (* host 2: an Up reader on the scan port 5084 AND a Down device on port 5085 listed after it;
+     host 3: a Down device on the scan port; host 5: Up on another port only *)
+  let devs := [mk_device (str "SpeedwayR-19-FE-16") (Some (2, 5084)) Up; mk_device (str "gw") (Some (2, 5085)) Down;
+               mk_device (str "old") (Some (3, 5084)) Down; mk_device (str "x") (Some (5, 5085)) Up;
+               mk_device (str "noaddr") None Up] in
   let hosts := fun a => if a =? 1 then Refuse else if a =? 4 then Garbage
                         else Answer (Some (25882, 2001002, str "5.14")) (Some (0, [0; 0; a; a; a])) in
   let tm := mk_timers 2 (Some 2) 20 in
-  run_probed tm 300 (make_device_map devs) hosts [[1; 2]; [3; 4]] = [1; 4; 3] /\
-  map fst (run_reported tm 300 (make_device_map devs) hosts [[1; 2]; [3; 4]]) = [3] /\
-  run_time tm 300 (make_device_map devs) hosts [[1; 2]; [3; 4]] = Some 0 /\
-  run_time (go_timers 2 20) 300 (make_device_map devs) (fun _ => Silent) [[1; 2]; [3; 4]] = None.
+  run_probed tm 300 (make_device_map devs) 5084 hosts [[1; 2]; [3; 4; 5]] = [1; 5; 4; 3] /\
+  map fst (run_reported tm 300 (make_device_map devs) 5084 hosts [[1; 2]; [3; 4; 5]]) = [5; 3] /\
+  run_time tm 300 (make_device_map devs) 5084 hosts [[1; 2]; [3; 4; 5]] = Some 0 /\
+  run_time (go_timers 2 20) 300 (make_device_map devs) 5084 (fun _ => Silent) [[1; 2]; [3; 4]] = None.
 Proof. vm_compute. repeat split; reflexivity. Qed.
